@@ -261,11 +261,13 @@ Definition vector_phase_cmp (dv : option detail) (tl : tol) (lstsq : list cvec -
       end
     end.
 
-(* EqualityComparer (transform = identity) *)
-Definition equality_cmp (dv : option detail) (tl : tol) (expected student : value) : cres :=
+(* EqualityComparer.  The configured transform is an ORACLE (any function on evaluated values: identity, np.abs,
+   np.linalg.norm, np.trace, np.transpose, a user lambda ...); it is applied AFTER the shape of the raw submission
+   has been validated against the raw expected value. *)
+Definition equality_cmp (dv : option detail) (tl : tol) (tr : value -> value) (expected student : value) : cres :=
   match (match dv with Some d => validate_shape d student (shape_of expected) | None => None end) with
   | Some e => CRaise e
-  | None => CBool (within tl (flat expected) (flat student))
+  | None => CBool (within tl (flat (tr expected)) (flat (tr student)))
   end.
 
 (* ------------------------------------------------------------------------------------------ *)
@@ -308,10 +310,12 @@ Definition entry_credit (pc : partial_credit) (locs : list bool) : cres :=
        | PCFlat q => CDict q (MsgEntries locs)
        end.
 
-Definition matrix_entry_cmp (dv : option detail) (tl : tol) (pc : partial_credit) (ss : list sample) : cres :=
+(* the transform (an oracle, as for EqualityComparer) is applied to every sample after all shapes were validated *)
+Definition matrix_entry_cmp (dv : option detail) (tl : tol) (pc : partial_credit) (tr : value -> value)
+    (ss : list sample) : cres :=
   match (match dv with Some d => first_shape_error d ss | None => None end) with
   | Some e => CRaise e
-  | None => entry_credit pc (entry_summary tl ss)
+  | None => entry_credit pc (entry_summary tl (map (fun es => (tr (fst es), tr (snd es))) ss))
   end.
 
 (* --- LinearComparer --- *)
@@ -402,11 +406,11 @@ Definition utils_detail (g : gkind) : option detail :=
   match g with GFormula => None | GMatrix p => Some (p_detail p) end.
 
 Inductive comparer :=
-  | CmpEquality | CmpEntry (pc : partial_credit) | CmpBetween | CmpCongruence
+  | CmpEquality (tr : value -> value) | CmpEntry (pc : partial_credit) (tr : value -> value) | CmpBetween | CmpCongruence
   | CmpEigen | CmpSpan | CmpPhase | CmpLinear (cfg : lconfig).
 
 Definition correlated (c : comparer) : bool :=
-  match c with CmpEntry _ | CmpLinear _ => true | _ => false end.
+  match c with CmpEntry _ _ | CmpLinear _ => true | _ => false end.
 
 (* one sample as the comparer sees it: evaluated comparer_params, evaluated student input and the
    coefficients lstsq returned during the call (only meaningful for span / phase) *)
@@ -418,7 +422,7 @@ Definition as_num (v : value) : option num := match v with VNum n => Some n | _ 
 Definition run_simple (g : gkind) (tl : tol) (c : comparer) (s : csample) : cres :=
   let dv := utils_detail g in
   match c, s_params s with
-  | CmpEquality, [e] => equality_cmp dv tl e (s_student s)
+  | CmpEquality tr, [e] => equality_cmp dv tl tr e (s_student s)
   | CmpBetween, [a; b] =>
       match as_real a, as_real b, as_num (s_student s) with
       | Some a, Some b, Some n => between_cmp a b n
@@ -465,8 +469,8 @@ Fixpoint compare_simple (g : gkind) (tl : tol) (c : comparer) (ss : list csample
 
 Definition compare_evaluations (g : gkind) (tl : tol) (c : comparer) (ss : list csample) : list (entry * msgk) + exn :=
   match c with
-  | CmpEntry pc =>
-      let res := matrix_entry_cmp (utils_detail g) tl pc (to_samples ss) in
+  | CmpEntry pc tr =>
+      let res := matrix_entry_cmp (utils_detail g) tl pc tr (to_samples ss) in
       match standardize res with inr e => inr e | inl en => inl [(en, msg_of res)] end
   | CmpLinear cfg =>
       let res := linear_cmp (utils_detail g) tl cfg (to_samples ss) in
